@@ -18,7 +18,7 @@
 (* Environment: flags of the UDP reply [tc, oth] (oth = "all other header  *)
 (* bits", abstracted to one boolean that must not matter), tcpMode.        *)
 (* TestBit = "tc" is the design; "oth" (wrong bit tested), "always",       *)
-(* "never" are deviation switches for the non-vacuity runs.                *)
+(* "never" and GiveUpResult = "udp" are deviation switches (non-vacuity).  *)
 (***************************************************************************)
 EXTENDS Naturals, Sequences, TLC, Json
 
@@ -27,6 +27,8 @@ CONSTANTS
     TestBit,      \* "tc" | "oth" | "always" | "never"
     MaxTcp,       \* bound on TCP dial attempts for one exchange (retries are the transport's freedom)
     MaxUdp,       \* bound on UDP (re)transmissions of the query
+    GiveUpResult, \* "err" = the design: a failed TCP retry is reported as its error; "udp" = deviation:
+                  \* the truncated UDP reply is handed to the caller as a success
     Export
 
 VARIABLES
@@ -90,11 +92,11 @@ TcpFail ==
     /\ pc' = "tcp" /\ tcpSaw' = FALSE
     /\ UNCHANGED <<tcpMode, tc, oth, udpSent, tcpConns, tcpDials, result>>
 
-\* C17 does not say what the caller gets when the TCP retry fails: an error (the code) or,
-\* gracefully, the truncated reply are both admitted
+\* TC(r) => the result is the outcome of the TCP exchange: its reply or its error, never the
+\* truncated UDP reply as a success
 TcpGiveUp ==
     /\ pc = "tcp" /\ tcpDials >= 1 /\ tcpMode # "answers"
-    /\ pc' = "done" /\ result' \in {"err", "udp"}
+    /\ pc' = "done" /\ result' = GiveUpResult
     /\ UNCHANGED <<tcpMode, tc, oth, udpSent, tcpConns, tcpDials, tcpSaw>>
 
 \* a reply may get lost (network, or dropped by the transport: C02); the query is then resent
@@ -117,8 +119,8 @@ TypeOK ==
 NoTcNoTcp == ~tc => /\ tcpConns = 0 /\ tcpDials = 0 /\ ~tcpSaw
                     /\ result \in {"none", "udp", "err"}
                     /\ (result = "err" => pc = "done" /\ udpSent <= MaxUdp)
-\* a truncated reply is not handed to the caller unless the TCP retry was made and failed
-TcNeverReturned == (tc /\ result = "udp") => (tcpMode # "answers" /\ tcpDials >= 1)
+\* a truncated reply is never handed to the caller
+TcNeverReturned == tc => result # "udp"
 TcpReplyOnlyForSameQuery == result = "tcp" => tc /\ tcpSaw /\ tcpConns >= 1 /\ tcpMode = "answers"
 \* with a TCP server that answers, a truncated reply cannot end in an error once TCP was tried
 TcAnswered == (tc /\ tcpMode = "answers" /\ pc = "done" /\ tcpDials >= 1) => result = "tcp"
